@@ -55,7 +55,8 @@ Check (C03_routed_frame :
   (forall j, j <> i -> nth_error (st_sessions st') j = nth_error (st_sessions st) j) /\
   (exists s', nth_error (st_sessions st') i = Some s' /\ same_ident s s') /\
   length (st_sessions st') = length (st_sessions st) /\
-  st_groups st' = st_groups st /\ st_gstore st' = st_gstore st).
+  st_groups st' = st_groups st /\
+  (group_sender s (o_plain out) = None -> st_gstore st' = st_gstore st)).
 
 Check (C03_replay_frame :
   forall (W : world) (o : oracle) (st : pstate) (from : addr) (wire : list N)
@@ -63,6 +64,7 @@ Check (C03_replay_frame :
   decode_packet W o st from wire = (st', out) ->
   o_verdict out = Routed i r ->
   find_sess (st_sessions st) from (o_plain out) = Some (i, s) ->
+  group_sender s (o_plain out) = None ->
   snd (post_recv (ps_win s) (p_ctr (o_plain out)) (mode_enc (ps_mode s)) false) = false ->
   st' = st /\ r = Err ERR_DUPLICATE).
 
@@ -145,7 +147,7 @@ Check (C03_encode_decode_roundtrip :
   session_encode W s p x payload = Ok wire ->
   find_sess (st_sessions stB) from p = Some (i, r) ->
   decode_packet W o stB from wire =
-    route stB i r p (adjust_rel (addr_reliable (ps_addr r)) x) payload).
+    route_existing stB i r p (adjust_rel (addr_reliable (ps_addr r)) x) payload).
 
 Check (C03_roundtrip :
   forall (W : world) (o : oracle) (s : psess) (gctr sai : option N) (x : proto_hdr)
@@ -160,7 +162,7 @@ Check (C03_roundtrip :
   pre_send s None gctr sai x = (s', Ok (p, x')) ->
   session_encode W s' p x' payload = Ok wire ->
   decode_packet W o stB from wire =
-    route stB i r p (adjust_rel (addr_reliable (ps_addr r)) x') payload).
+    route_existing stB i r p (adjust_rel (addr_reliable (ps_addr r)) x') payload).
 
 Check (C03_group_encode_auth :
   forall (W : world) (s : psess) (stB : pstate) (from : addr) (c : gcand) (others : list gcand)
@@ -175,6 +177,16 @@ Check (C03_group_encode_auth :
   (length wire - length (plain_encode p) <= 1280)%nat ->
   group_cands stB p = c :: others -> gc_key c = ps_enc_key s ->
   auth_check W stB from wire = AuthGroup c p (adjust_rel (addr_reliable from) x) payload).
+
+Check (C03_group_replay_rejected :
+  forall (W : world) (o : oracle) (st : pstate) (from : addr) (wire : list N) (i : nat)
+         (p : plain_hdr) (x : proto_hdr) (payload : list N) (s : psess) (fab src : N),
+  auth_check W st from wire = AuthSession i p x payload ->
+  find_sess (st_sessions st) from p = Some (i, s) ->
+  group_sender s p = Some (fab, src) ->
+  snd (g_post_recv (st_gstore st) fab src (p_ctr p)) = false ->
+  o_verdict (snd (decode_packet W o st from wire)) = RejGroupDup /\
+  st_sessions (fst (decode_packet W o st from wire)) = st_sessions st).
 
 Check (C03_monitor_delivered :
   forall (W : world) (st : pstate) (from : addr) (wire : list N) (ob : observation) (b : bool),
